@@ -10,7 +10,7 @@ Property theorems only (model: `Model/Context.lean`, helper lemmas: `Lemmas/C12.
 Quantifiers.  "For all finite histories" = `∀ ops : List Op` (layer A) / `∀ ops : List POp` (layer B,
 the process-wide singleton), proved by induction through the invariant `WF` (`wf_run`).  Faults are part of
 the operations: `make … ctorF relF runB` (constructor / release step / task body raise), `addH .exc`
-(stop handler raises), `start tcpF udpF`, `qstart … tcpF udpF peers` (start steps fail).  "Every population
+(stop handler raises), `start tcpF udpF`, `qstart … tcpF udpF peers logF` (start steps fail: TCP bind, UDP bind, a peer, logging initialisation).  "Every population
 present at stop" = every well-formed state.  Layer C (`stop ‖ make`) quantifies over all schedules.
 
 History: on the pinned tree (04de7e7) two clauses were false — a failed start left the router thread and the
@@ -379,17 +379,17 @@ theorem start_retry_after_failure (c : Ctx) (hc : RouterClean c) (ha : c.active 
 /-! ## the process can start a new context -/
 
 /-- `qmi.start(name)` without faults -/
-def qClean (t : Bool) : POp := .qstart true t false false []
+def qClean (t : Bool) : POp := .qstart true t false false [] false
 
 /-- directly, or after the public clean-up `qmi.stop()` -/
 def CanStartAgain (p : Proc) (t : Bool) : Prop :=
   (pstep p (qClean t)).2 = .ok ∨ (pstep (pstep p .qstop).1 (qClean t)).2 = .ok
 
-/-- a failed `qmi.start()` — invalid name, TCP or UDP bind failure, unreachable peer — leaves no singleton behind,
+/-- a failed `qmi.start()` — invalid name, logging initialisation failing, TCP or UDP bind failure, unreachable peer — leaves no singleton behind,
 and the context it gave up on holds nothing (no thread, handler, name, socket) -/
 theorem failed_qstart_leaves_nothing (p : Proc) (hn : p.single = none) (hd : DroppedEmpty p)
-    (v t tf uf : Bool) (peers : List Bool) (hf : (pstep p (.qstart v t tf uf peers)).2 ≠ .ok) :
-    (pstep p (.qstart v t tf uf peers)).1.single = none ∧ DroppedEmpty (pstep p (.qstart v t tf uf peers)).1 := by
+    (v t tf uf : Bool) (peers : List Bool) (lf : Bool) (hf : (pstep p (.qstart v t tf uf peers lf)).2 ≠ .ok) :
+    (pstep p (.qstart v t tf uf peers lf)).1.single = none ∧ DroppedEmpty (pstep p (.qstart v t tf uf peers lf)).1 := by
   refine ⟨?_, droppedEmpty_pstep hd _⟩
   revert hf
   simp only [pstep, pstep', Proc.clr, hn, Option.map_none, qstart]
@@ -397,6 +397,10 @@ theorem failed_qstart_leaves_nothing (p : Proc) (hn : p.single = none) (hd : Dro
   | false => intro _; rfl
   | true =>
     simp only [Bool.not_true, Bool.false_eq_true, if_false]
+    cases lf with
+    | true => intro _; simp only [if_true]; exact qstartFailed_single _ _ _
+    | false =>
+    simp only [Bool.false_eq_true, if_false]
     cases start (Ctx.init t) tf uf with
     | mk c1 o1 =>
       cases o1 with
@@ -415,9 +419,12 @@ theorem failed_qstart_leaves_nothing (p : Proc) (hn : p.single = none) (hd : Dro
 theorem dropped_contexts_empty (ops : List POp) : DroppedEmpty (prun Proc.init ops) :=
   droppedEmpty_prun (fun _ h => by cases h) ops
 
-example : (pstep Proc.init (.qstart true true true false [true])).2 = .exc .os ∧
-    (pstep Proc.init (.qstart true true false false [true, false])).2 = .exc .connRefused ∧
-    (pstep Proc.init (.qstart true true false false [true, false])).1.dropped.length = 1 := ⟨by decide, by decide, by decide⟩
+example : (pstep Proc.init (.qstart true true true false [true] false)).2 = .exc .os ∧
+    (pstep Proc.init (.qstart true true false false [true, false] false)).2 = .exc .connRefused ∧
+    (pstep Proc.init (.qstart true true false false [] true)).2 = .exc .logging ∧
+    (pstep Proc.init (.qstart true true false false [] true)).1.single = none ∧
+    (pstep Proc.init (.qstart true true false false [true, false] false)).1.dropped.length = 1 :=
+  ⟨by decide, by decide, by decide, by decide, by decide⟩
 
 /-- from every good state — no singleton, or an active well-formed one whose stop handlers raise at most `Exception`s —
 the process can start a context, at the latest after `qmi.stop()` -/
@@ -438,20 +445,20 @@ theorem good_preserved (p : Proc) (hp : GoodP p) (o : POp) (ho : Harmless o) : G
   goodP_pstep hp ho
 
 /-- **The process can always start a new context**: after every history of the process — any mix of `qmi.start`
-(with TCP / UDP / peer faults, invalid names), `qmi.stop`, `qmi.context`, make / remove / get / task and instrument
+(with logging-initialisation / TCP / UDP / peer faults, invalid names), `qmi.stop`, `qmi.context`, make / remove / get / task and instrument
 operations with constructor, release and stop-handler faults — `qmi.start()` succeeds, directly or after `qmi.stop()`. -/
 theorem process_can_start_again (ops : List POp) (h : ∀ o ∈ ops, Harmless o) (t : Bool) :
     CanStartAgain (prun Proc.init ops) t :=
   can_start_again_of_good _ (goodP_prun (Or.inl rfl) ops h) t
 
-example : GoodP (prun Proc.init [.qstart true true true false [], .qstart true true false false [true, false],
-      .qstart true true false false [true], .op (.make .task 1 true false true .raise), .op (.tstart 1), .op (.addH .exc)]) ∧
-    (prun Proc.init [.qstart true true true false [], .qstart true true false false [true, false],
-      .qstart true true false false [true], .op (.make .task 1 true false true .raise), .op (.tstart 1), .op (.addH .exc)]).single.isSome = true := by
+example : GoodP (prun Proc.init [.qstart true true true false [] false, .qstart true false false false [] true, .qstart true true false false [true, false] false,
+      .qstart true true false false [true] false, .op (.make .task 1 true false true .raise), .op (.tstart 1), .op (.addH .exc)]) ∧
+    (prun Proc.init [.qstart true true true false [] false, .qstart true false false false [] true, .qstart true true false false [true, false] false,
+      .qstart true true false false [true] false, .op (.make .task 1 true false true .raise), .op (.tstart 1), .op (.addH .exc)]).single.isSome = true := by
   refine ⟨goodP_prun (Or.inl rfl) _ ?_, by decide⟩
   intro o ho
   simp only [List.mem_cons, List.not_mem_nil, or_false] at ho
-  rcases ho with rfl | rfl | rfl | rfl | rfl | rfl <;> simp [Harmless]
+  rcases ho with rfl | rfl | rfl | rfl | rfl | rfl | rfl <;> simp [Harmless]
 
 
 /-! ## calls through proxies racing `remove_rpc_object()` / `stop()` (manager and worker, all interleavings) -/
@@ -588,7 +595,7 @@ continuation, `qmi.start()` and `qmi.stop()` both raise `QMI_UsageException` (th
 theorem stopped_behind_qmis_back (p : Proc) (c : Ctx) (hc : p.single = some c) (hw : WF c) (ha : c.active = true)
     (hu : c.used = true) (hb : firstBase c.stopH 0 = none) (ops : List POp) (v t tf uf : Bool) (peers : List Bool) :
     (pstep p (.op .stop)).2 = .ok ∧ StoppedP (pstep p (.op .stop)).1 ∧
-    (pstep (prun (pstep p (.op .stop)).1 ops) (.qstart v t tf uf peers)).2 = .exc .usage ∧
+    (pstep (prun (pstep p (.op .stop)).1 ops) (.qstart v t tf uf peers false)).2 = .exc .usage ∧
     (pstep (prun (pstep p (.op .stop)).1 ops) .qstop).2 = .exc .usage ∧
     (∃ d, (prun (pstep p (.op .stop)).1 ops).single = some d ∧ d.residue = Residue.empty) := by
   have h0 : WF { c with log := [] } := hw.congr rfl rfl rfl rfl rfl
@@ -601,7 +608,7 @@ theorem stopped_behind_qmis_back (p : Proc) (c : Ctx) (hc : p.single = some c) (
     exact ⟨_, rfl, stopped_step (c := (stop { c with log := [] }).1) hs .removeForeign |> fun _ => by
       have := hs; exact ⟨this.1, this.2, this.3, this.4, this.5, this.6, this.7⟩⟩
   have h3 := stoppedP_prun e2 ops
-  refine ⟨e1, e2, (stoppedP_pstep h3 _).2 (Or.inl ⟨_, _, _, _, _, rfl⟩), (stoppedP_pstep h3 _).2 (Or.inr rfl), ?_⟩
+  refine ⟨e1, e2, (stoppedP_pstep h3 _).2 (Or.inl ⟨_, _, _, _, _, _, rfl⟩), (stoppedP_pstep h3 _).2 (Or.inr rfl), ?_⟩
   obtain ⟨d, hd, hsd⟩ := h3
   exact ⟨d, hd, by simp only [Ctx.residue, Residue.empty, hsd.h_empty, hsd.m_empty, hsd.map_empty, hsd.conns_empty, hsd.router_down]⟩
 
